@@ -124,7 +124,7 @@ PROPS.update({
     "C13": dict(
         sub="c13", cfgs=["D", "A"],
         rule="every operation history (constructor followed by d operations) is executed from scratch on a fresh real vector and compared step by step with a reference Vec (with the crate's capacity for the stack vector): contents, length <= capacity, failed push/extend/resize leave contents unchanged, eq/cmp against snapshots of earlier states agree with numeric comparison, is_normalized/hi64 agree. Histories are never merged.",
-        exhaustive_over={"quick": "9 constructors x all 30-letter histories of depth 4 (7.3 M) + 9 x 12-letter core histories of depth 6 (26.9 M); StackVec (D) and HeapVec (A)",
+        exhaustive_over={"quick": "9 constructors x all 35-letter (33 on the heap vector) histories of depth 4 (13.5 M) + 9 x 12-letter core histories of depth 6 (26.9 M); StackVec (D) and HeapVec (A)",
                          "thorough": "depth 5 full (352 M) + depth 8 core (3.9 G)"},
         assumptions=["after a failed add_small/mul_small the contents are unspecified and the branch ends"]),
     "C14": dict(
@@ -159,7 +159,7 @@ PROPS.update({
     "C08": dict(
         custom="c08", cfgs=ALL8,
         rule="every member of BYTES (strings over byte classes below '0', digits, just above '9', high bytes; fillers with one foreign byte) is passed as integer and fraction with 8 exponent classes to the real parse_float for f32 and f64 in four build variants: optimised, debug assertions (which enable core's UB-precondition checks and the crate's own debug_asserts), AddressSanitizer, and Miri with Tree Borrows. Outcomes value / unwinding panic are both acceptable; an engine that ends any other way is the violation. Vector histories at capacity and call histories also run under Miri.",
-        exhaustive_over={"quick": "BYTES(3)^2 (585^2 pairs) x 8 exponents + fillers to 10^4 bytes in release and dbg x 8 configurations and ASan x 4; under Miri: BYTES(1)^2 x 3 exponents + short fillers in D (debug and release), A, C; vector histories depth 2; call-history pairs",
+        exhaustive_over={"quick": "BYTES(3)^2 (585^2 pairs) x 8 exponents + fillers to 10^4 bytes, and a valid-digit slice (HARD near-halfway cases at every decimal exponent, GAPS, DEEP, thresholds, EXTREME: 2.5 M inputs that reach the big-integer and table-indexing code) in release and dbg x 8 configurations and ASan x 4; under Miri: BYTES(1)^2 x 3 exponents + short fillers in D (debug and release), A, C; vector histories depth 2; call-history pairs",
                          "thorough": "Miri: BYTES(2)^2 in D, A, C, NC, debug and release"},
         assumptions=["an overflow that stays inside the StackVec object is invisible to ASan and Miri; it is covered by the dbg build's assertions and by C13's step-by-step comparison at capacity",
                      "Miri is run with Tree Borrows (Stacked Borrows flags StackVec::push_unchecked for a within-buffer access; see DESIGN.md observation O1)"]),
